@@ -105,7 +105,49 @@ func init() {
 		}
 		return f
 	})
+	grid := modelSub(p, "grid", compareOpts{}, func(cs *progCase, res *m.Result) bool { return true })
 	p.Run = func(c *Ctx) {
+		// complete grid: every binary operator x every ordered pair of a value
+		// pool, every unary operator x the pool, and the conditional; values
+		// are observed through cat() so arrays and hashes are visible too.
+		pool := []*m.E{m.ENum(0), m.ENum(1), m.ENum(2), m.ENum(3), m.ENum(7), m.ENum(0.5), m.ENum(2.25),
+			m.EStr("a"), m.EStr("ab"), m.EStr("b"), m.EStr(""), m.EBool(true), m.EBool(false), m.ENull(),
+			m.EArr(m.ENum(1), m.ENum(2)), m.EArr(m.EStr("a")), m.EArr(),
+			&m.E{K: "hash", KS: []*m.E{m.EName("k0")}, A: []*m.E{m.ENum(1)}}, m.EName("i0"), m.EName("s0"), m.EName("an0")}
+		ctx := []*m.CtxVar{{Name: "i0", V: m.Num(4), Carrier: "int"}, {Name: "s0", V: m.Str("abc")}, {Name: "an0", V: m.Arr(m.Num(2), m.Num(4)), Carrier: "slice"}}
+		one := func(e *m.E) *progCase {
+			return &progCase{P: &m.Program{Env: "core", Loader: "memory", Entry: "main", Ctx: ctx,
+				Tpls: []*m.Tpl{{Name: "main", Body: []*m.N{m.NPrint(m.ECall("cat", e))}}}}}
+		}
+		binops := []string{"or", "and", "b-or", "b-xor", "b-and", "==", "!=", "<", "<=", ">", ">=", "not in", "in", "matches",
+			"starts with", "ends with", "..", "+", "-", "~", "*", "/", "//", "%", "**"}
+		idx := 0
+		done := true
+		for _, op := range binops {
+			for _, l := range pool {
+				for _, r := range pool {
+					idx++
+					if c.Mine(idx) && !grid.Check(c, one(m.EBin(op, l, r))) {
+						done = false
+					}
+				}
+			}
+		}
+		for _, u := range []string{"not", "-", "+"} {
+			for _, x := range pool {
+				idx++
+				if c.Mine(idx) && !grid.Check(c, one(m.EUn(u, x))) {
+					done = false
+				}
+			}
+		}
+		for _, cnd := range pool {
+			idx++
+			if c.Mine(idx) && !grid.Check(c, one(m.ECond(cnd, m.EStr("T"), m.EStr("F")))) {
+				done = false
+			}
+		}
+		c.Ev.S.Exhaustive["operator_x_operand_pair_grid"] = done
 		cfg := gen.Cfg{ExprDepth: 5, BodyLen: 2, Nest: 0, Calls: true, Carriers: true}
 		sub.Rapid(c, c.Share(c.Pick(30000, 2000000)), func(t *rapid.T) *progCase {
 			g := &gen.G{T: t, C: cfg}
